@@ -158,7 +158,7 @@ fn exec_inner(c: &Crowd, res: &mut Res) {
     let dst = SocketAddr::new(hosts[1][0], 7000);
     let client_ip = hosts[0][0];
     let b = c.cfg.backlog;
-    let mut count = |res: &mut Res, k: &str, n: u64| {
+    let count = |res: &mut Res, k: &str, n: u64| {
         if let Some(e) = res.counters.iter_mut().find(|(kk, _)| kk == k) {
             e.1 += n
         } else {
